@@ -11,7 +11,7 @@ from concurrent.futures import ThreadPoolExecutor
 
 VERIF = os.path.dirname(os.path.dirname(os.path.abspath(__file__)))
 SRC = os.environ.get('QSMTP_SRC', '/repo')
-LEAN = os.path.join(VERIF, 'lean')
+LEAN = os.environ.get('QSMTP_LEAN', os.path.join(VERIF, 'lean'))
 NCPU = min(16, os.cpu_count() or 4)
 ALLOWED_AXIOMS = {'propext', 'Classical.choice', 'Quot.sound'}
 FORBIDDEN = re.compile(r'\b(sorry|admit|native_decide|bv_decide|implemented_by|unsafe)\b|^\s*axiom\s|maxHeartbeats\s+0\b|\bpartial\s+def\b', re.M)
